@@ -202,7 +202,9 @@ func (s *metricSchemaStore) PrepareFlush() {
 	s.lock.Lock()
 	defer s.lock.Unlock()
 
-	if s.immutable == nil {
+	// an empty immutable store is left by a flush cycle that had nothing to flush(flush skips it),
+	// need replace it, else data written later will never be flushed.
+	if s.immutable == nil || s.immutable.IsEmpty() {
 		s.immutable = s.mutable
 		s.mutable = imap.NewIntMap[*metric.Schema]()
 	}
